@@ -741,9 +741,21 @@ class Printer:
                 if cv == 'true':
                     return self.block(parts[1], ind)
                 return self.block(parts[2], ind) if len(parts) > 2 else ''
-            s = f'{p}if ({self.cond(parts[0])})\n' + self.block(parts[1], ind)
+            ce = self.expr(parts[0])
+            hoist = ''
+            if getattr(self, 'pending_throw', False):
+                # a may-throw callee inside the condition: the condition is evaluated once into a temporary, the
+                # exception flag is tested, then the branch is taken on the temporary (same evaluation order)
+                self.pending_throw = False
+                self.tmp += 1
+                t = f'nv_cond{self.tmp}'
+                hoist = f'{p}_Bool {t} = {ce};\n{p}if (nv_thrown) return {self.default_value(self.ret_ctype)};\n'
+                ce = t
+            s = f'{p}if ({ce})\n' + self.block(parts[1], ind)
             if len(parts) > 2:
                 s += f'{p}else\n' + self.block(parts[2], ind)
+            if hoist:
+                s = f'{p}{{\n{hoist}{s}{p}}}\n'
             if pre:
                 s = f'{p}{{\n{pre}' + ''.join('  ' + ln + '\n' for ln in s.rstrip('\n').split('\n')) + f'{p}}}\n'
             return s
